@@ -631,6 +631,25 @@ func zipSingleFaults(b *base, emit func(desc string, data []byte)) {
 			}
 		}
 		xmlEmit("deep-nesting", strings.Repeat("<a>", 20000)+s)
+		// cell-range attributes (mergeCell ref, dimension ref, autoFilter ref …): ranges that
+		// reach beyond every stored row / column, reversed, degenerate and unparsable ones
+		for idx, from := 0, 0; idx < 6; idx++ {
+			j := strings.Index(s[from:], ` ref="`)
+			if j < 0 {
+				break
+			}
+			st := from + j + len(` ref="`)
+			e := strings.Index(s[st:], `"`)
+			if e < 0 {
+				break
+			}
+			if strings.Contains(s[st:st+e], ":") {
+				for _, h := range []string{"A1:A1048576", "A1:XFD1", "A1:XFD1048576", "A1:A99999999999999999999", "B2:A1", "A0:A0", "A1:", ":", "A1:ZZZZZZZZ9", "A-1:B2", "A1:A3"} {
+					xmlEmit(fmt.Sprintf("range-ref#%d=%s", idx, h), s[:st]+h+s[st+e:])
+				}
+			}
+			from = st + e
+		}
 		// the XML declaration: encoding labels the reader may not know (a decoder
 		// hook has to answer for every label), other versions, a second declaration
 		body := s
